@@ -55,7 +55,7 @@ func drawBufferSize(t *Tape) int {
 // encoding/json decoding; Run returns nil.
 func jsonFileScenario(r *Run) {
 	t := r.Tape
-	hdr := t.Block(12)
+	hdr := t.Block(24)
 	sizes := []int{0, 1, 2, 63, 64, 65, 127, 128, 129, 200, 321, 640}
 	if r.Thorough() {
 		sizes = append(sizes, 1000, 4096, 8191, 8192, 8193, 64*129+1, 64*130)
@@ -346,7 +346,7 @@ func csvQuote(s string, sep byte) string {
 
 func csvFileScenario(r *Run) {
 	t := r.Tape
-	hdr := t.Block(12)
+	hdr := t.Block(24)
 	tsv := hdr.Chance(1, 3)
 	sep := byte(',')
 	ext := "csv"
@@ -492,7 +492,7 @@ func csvFileScenario(r *Run) {
 
 func linesFileScenario(r *Run) {
 	t := r.Tape
-	hdr := t.Block(12)
+	hdr := t.Block(24)
 	seps := []string{"\n", ";", "|", "ab", "::", "\r\n", "é", "--", "aa"}
 	sep := seps[hdr.Draw(len(seps))]
 	maxRows := []int{0, 1, 2, 3, 10, 50}
